@@ -105,6 +105,7 @@ ObsInit == [
   best     |-> [v \in VB |-> 0],          \* highest seqno that all listed copies have ever reported together under one vbUUID
   gwait    |-> [v \in VB |-> 0 - 1],      \* seqno of the event handed to the observer while the gate was on (-1: none)
   padv     |-> [v \in VB |-> 0 - 1],      \* C05 obligation of that event, due when it takes effect
+  fresh    |-> 0,                         \* C06: the vBucket whose event was handed to the observer by the very last thing that happened (0: none)
   incb     |-> "",                        \* C11: the lifecycle callback the user's handler is still inside ("": none known)
   hadv     |-> [v \in VB |-> 0 - 1],      \* C05 obligation of an acknowledgement whose Ack() call has not returned yet (AckHeld .. AckDone)
   psess    |-> [v \in VB |-> 0 - 1],      \* position that event settles when it takes effect (-1: none)
@@ -137,7 +138,7 @@ ApBoot(o, e) ==
             !.adv = [v \in VB |-> 0 - 1], !.conf = [v \in VB |-> StoreSeq(o, v)], !.news = FALSE, !.owned = {},
             !.gate = FALSE, !.tab = [v \in VB |-> <<>>], !.best = [v \in VB |-> 0], !.gwait = [v \in VB |-> 0 - 1],
             !.padv = [v \in VB |-> 0 - 1], !.psess = [v \in VB |-> 0 - 1], !.pdead = [v \in VB |-> FALSE], !.lthr = [v \in VB |-> 0],
-            !.hadv = [v \in VB |-> 0 - 1], !.incb = ""]
+            !.hadv = [v \in VB |-> 0 - 1], !.incb = "", !.fresh = 0]
 
 ApDied(o, e) == [o EXCEPT !.up = FALSE, !.mustdie = FALSE, !.pend = {}, !.pendopen = {}]
 
@@ -564,9 +565,12 @@ ApState(o, e) ==
       o7 == Check(o6, \A v \in VB : e.thr[v] >= o.lthr[v], "C07", "the threshold of a stream decreased")
   IN  [o7 EXCEPT !.lthr = e.thr]
 
-Apply(o, e) ==
+Apply0(o, e) ==
   CASE e.ev = "Boot"       -> ApBoot(o, e)
-    [] e.ev = "Died"       -> ApDied(ApDiedLife(o, e), e)
+    \* the process ends as the direct consequence of an event the server was entitled to send (inside its announced snapshot, or
+    \* a marker / seqno-advanced) on a stream that is open: only an event OUTSIDE its snapshot may stop the client
+    [] e.ev = "Died"       -> ApDied(ApDiedLife(IF o.fresh # 0 /\ ~o.mustdie /\ o.streaming[o.fresh] /\ ~o.closing
+                                                  THEN Viol(o, "C06", "an event inside its announced snapshot stopped the client") ELSE o, e), e)
     [] e.ev = "Crash"      -> ApDied(o, e)
     [] e.ev = "SeqNos"     -> ApSeqNos(o, e)
     [] e.ev = "Fail"       -> ApFail(o, e)
@@ -611,6 +615,8 @@ Apply(o, e) ==
     [] e.ev = "CallbackDone" -> [o EXCEPT !.incb = ""]
     [] e.ev = "State"      -> ApState(o, e)
     [] OTHER               -> o
+
+Apply(o, e) == LET o1 == Apply0(o, e) IN [o1 EXCEPT !.fresh = IF e.ev = "Sent" THEN e.vb ELSE 0]
 
 RECURSIVE Fold(_, _)
 Fold(o, es) == IF es = <<>> THEN o ELSE Fold(Apply(o, Head(es)), Tail(es))
